@@ -6,7 +6,7 @@ IRPC / WHILE bodies (nested; chains up to seven constructs deep), continuation l
 EXPECT/ENDEXPECT blocks.  The model lists, in order, every diagnostic that has to
 appear together with the position it has to name.  The same program is then
 assembled twice by the real asl — native message format and -gnuerrors — under
-random -x level, -n and -E target; the messages found on the selected error
+random -x level, -n, -E target and one of (nothing, -w, -Werror); the messages found on the selected error
 channel are parsed back into (file, line, construct chain, include chain) and
 compared one by one with the model; the hook trace (D = issued, X = swallowed by
 EXPECT) is compared as well.
@@ -24,7 +24,11 @@ What is asserted exactly / loosely (see model.expected_pos):
   * IRPN names its batch either by the first argument or by all of them;
   * REPT n(l) / WHILE n/l are printed without a blank before a nested construct
     ("REPT 1(12)IRP:2(4)"): tolerated by the parser and only counted;
-  * columns (":col") are parsed and counted but not judged (manual silent).
+  * columns (":col") are parsed and counted but not judged (manual silent);
+  * -w ("suppress issue of warnings") only takes unswallowed warnings off the
+    channel, -Werror only turns their class into error: EXPECT accounting (hook
+    X events, 2130 reports), positions of everything else and the exit status
+    (0 / 2 by error messages due) are the same model with and without them.
 Not generated because the manual leaves the outcome open: continuation lines
 inside bodies, macros called from another file than the defining one, a number
 announced in EXPECT that occurs more than once in the block, undefined symbols
@@ -41,7 +45,7 @@ LEVEL = 'exploration'
 REGISTERED = True
 RULE = ('case = one generated program (4 targets; 1..6 files; faults: unknown mnemonic, operand count, range overflow, undefined symbol, '
         'documented warning; EXPECT blocks with occurring and absent numbers) assembled in native and -gnuerrors format under random '
-        '-x 0..2 / -n / -E target; every expected diagnostic is one observation; distinct = distinct (format, fault kind, construct '
+        '-x 0..2 / -n / -E target / none, -w or -Werror; every expected diagnostic is one observation; distinct = distinct (format, fault kind, construct '
         'chain shape, include depth, continued, in-EXPECT, last-body-line) placement whose position was actually compared; '
         'a case is non-trivial if at least one diagnostic or one swallowed message was expected (the generator guarantees it)')
 ASSUMPTIONS = ['every fault template yields exactly one diagnostic with the number tabulated in doc/error-messages.md',
@@ -52,7 +56,7 @@ MANIFEST = dict(
     technique='reference-model monitor: planted faults with known positions vs. the positions parsed back from the error channel '
               '(native and -gnuerrors) and from the diagnostic hook trace; EXPECT/ENDEXPECT modelled as take-away of announced numbers',
     text='Held on the executions of this run: for generated programs with faulty lines in main files, nested includes, macro/REPT/IRP/IRPN/IRPC/WHILE '
-         'bodies (nested, also on the last body line), continuation lines and EXPECT blocks, under -x 0..2, -n, -gnuerrors and all -E targets, every '
+         'bodies (nested, also on the last body line), continuation lines and EXPECT blocks, under -x 0..2, -n, -gnuerrors, -w, -Werror and all -E targets, every '
          'diagnostic named the file, line, construct chain and include chain of the planted fault, no clean line was named, EXPECT swallowed exactly the '
          'announced numbers that occurred and ENDEXPECT reported every announced number that did not.',
     note='Numbers whose convention the manual leaves implicit (which line stands for a multi-line repetition, call line vs definition line of a macro) are '
@@ -231,8 +235,19 @@ def compare_pos(fmt, exp, obs, frames_model, conv=None):
     return bad
 
 
-def run_one(ctx, out, main, files, events, swallowed, mode, fmt, xlev, numeric, target, tagbase):
+def run_one(ctx, out, main, files, events, swallowed, mode, fmt, xlev, numeric, target, tagbase, wmode=None):
     opts = []
+    # -w is documented as "suppress issue of warnings" and -Werror as "treat warnings as errors": the first only takes the
+    # unswallowed warnings off the channel, the second only changes their class; which message is ticked off by EXPECT, what
+    # ENDEXPECT reports, where the remaining messages point and (for -w) the exit status stay what they are without the option.
+    # (-w together with -Werror: precedence not documented, not generated.)
+    if wmode == '-w':
+        events = [e for e in events if e['cls'] != 'W']
+        opts.append('-w')
+    elif wmode == '-Werror':
+        events = [dict(e, cls='E') for e in events]
+        opts.append('-Werror')
+    exp_rc = 2 if any(e['cls'] == 'E' for e in events) else 0
     if fmt == 'gnu':
         opts.append('-gnuerrors')
     opts += ['-x'] * xlev
@@ -262,6 +277,12 @@ def run_one(ctx, out, main, files, events, swallowed, mode, fmt, xlev, numeric, 
     if r.rc not in (0, 2):
         out.violate('exit-status-%s' % r.rc, '%s: unexpected exit status %s: %s' % (tag, r.rc, r.text()[-300:]))
         return
+    if r.rc != exp_rc:
+        # status 2 exactly when an error message is due (assembler-usage.md, return codes); judged further below as well,
+        # this key says that the STATUS moved (e.g. a source that is clean without -w fails with it)
+        out.violate('exit-status:expected-%d-got-%d%s' % (exp_rc, r.rc, ':with-' + wmode.lstrip('-') if wmode else ''),
+                    '%s: %d error messages are due, exit status %d' % (tag, sum(1 for e in events if e['cls'] == 'E'), r.rc))
+    out.sets['warning_options'].add(wmode or 'none')
     so = r.out.decode('latin-1')
     se = r.err.decode('latin-1')
     chans = {'stdout': so, 'stderr': se,
@@ -357,8 +378,9 @@ def run_one(ctx, out, main, files, events, swallowed, mode, fmt, xlev, numeric, 
         out.obs['positions_checked'] += 1
         out.sets['construct_chains'].add(c['shape'])
         out.sets['fault_kinds'].add(c['fkind'])
-        out.sigs.add('%s|%s|%s|inc%d|%s%s%s' % (fmt, c['fkind'], c['shape'], c['incdepth'], 'cont' if c['cont'] else '',
-                                                 'X' if c['in_expect'] else '', 'L' if c['last_body_line'] else ''))
+        out.sigs.add('%s|%s|%s|inc%d|%s%s%s%s' % (fmt, c['fkind'], c['shape'], c['incdepth'], 'cont' if c['cont'] else '',
+                                                   'X' if c['in_expect'] else '', 'L' if c['last_body_line'] else '',
+                                                   ('|' + wmode) if wmode and (c['in_expect'] or c['fkind'] in ('warn', 'absent')) else ''))
         if o['col']:
             out.obs['columns_seen'] += 1
         if fmt == 'native' and re.search(r'(REPT \d+\(\d+\)|WHILE \d+/\d+)[^\s:]', o['raw']):
@@ -436,5 +458,6 @@ def run_case(case, ctx):
         xlev = rng.choice([0, 0, 1, 2])
         numeric = rng.random() < 0.5
         target = rng.choice(E_TARGETS)
-        run_one(ctx, out, main, g.files, events, swallowed, mode, fmt, xlev, numeric, target, tagbase)
+        wmode = rng.choice([None, None, None, None, None, '-w', '-w', '-Werror'])
+        run_one(ctx, out, main, g.files, events, swallowed, mode, fmt, xlev, numeric, target, tagbase, wmode)
     out.sig = None
